@@ -51,12 +51,34 @@ def _lookup(term):
     return (seq, key.args[0], key.args[1])
 
 
+def via_constructor(ctx, chk, kwargs):
+    """The (matrix, classes) pair a ConfusionMatrix gets from the public constructor (robust against any re-arrangement of the private
+    helpers); None when the constructor does not yield exactly one normal path with both attributes as terms."""
+    cmcls = ctx.db.cls(CM)
+    kw = {k: v for k, v in kwargs.items() if not (isinstance(v, Const) and v.value is None)}
+    try:
+        outs = ctx.explore(lambda: ctx.ev.instantiate(cmcls, [], dict(kw)), chk)
+    except Exception:  # noqa: BLE001
+        return None
+    rets = [o for o in outs if o.kind == "return"]
+    if len(rets) != 1 or not isinstance(rets[0].value, Obj):
+        return None
+    o = rets[0]
+    m, c = o.value.attrs.get("matrix"), o.value.attrs.get("classes")
+    if not (hasattr(m, "key") and hasattr(c, "key")):
+        return None
+    o.value = Tup([m, c])
+    return [o]
+
+
 def check_from_predictions(ctx, chk):
     f = ctx.fn(AFP)
     for wv, wname in ((W, "weights"), (Const(None), "unweighted")):
         for kv, kname in ((K, "classes"), (Const(None), "inferred")):
             inst = "%s/%s" % (wname, kname)
-            outs = ctx.explore(lambda: ctx.ev.call(f, [L, P, wv, kv, Const(False)], {}), chk)
+            outs = via_constructor(ctx, chk, {"labels": L, "predictions": P, "weights": wv, "classes": kv})
+            if outs is None:
+                outs = ctx.explore(lambda: ctx.ev.call(f, [L, P, wv, kv, Const(False)], {}), chk)
             rets = returns(outs)
             if len(rets) != 1 or rets[0].unmodelled or not isinstance(rets[0].value, Tup):
                 chk.unknown("R05.1", "%s [%s]: %d return paths %s" % (AFP, inst, len(rets), rets and unmodelled_text(rets[0])))
@@ -144,7 +166,9 @@ def check_from_matrix(ctx, chk):
         mx = Sym("mat", ("param", "notnone", kind))
         for kv, kname in ((K, "classes"), (Const(None), "default")):
             inst = "%s/%s" % (kind, kname)
-            outs = ctx.explore(lambda: ctx.ev.call(f, [mx, kv, Const(False)], {}), chk)
+            outs = via_constructor(ctx, chk, {"matrix": mx, "classes": kv})
+            if outs is None:
+                outs = ctx.explore(lambda: ctx.ev.call(f, [mx, kv, Const(False)], {}), chk)
             rets = returns(outs)
             if len(rets) != 1 or rets[0].unmodelled or not isinstance(rets[0].value, Tup):
                 chk.unknown("R05.2", "%s [%s]: %d return paths %s" % (AFM, inst, len(rets), rets and unmodelled_text(rets[0])))
